@@ -1131,6 +1131,7 @@ def mon_c14(sc, res):
         arms = [t for t in itr.timers[si] if t[0] == "arm"]
         routed = [(d, v) for d, ok, v in sends if is_obj(v) and cget(v, b"method") is not None and isinstance(cget(v, b"id"), bytes)]
         cands = []
+        elem_at = {}
         dups = dup_ids(reqs)
         for c, top in reqs:
             rs, _ = flatten_requests(top)
@@ -1152,6 +1153,9 @@ def mon_c14(sc, res):
                     pass
                 elif m in (b"set", b"call") and is_obj(params) and isinstance(cget(params, b"path"), bytes):
                     cands.append((c, r))
+                    # the element's declared timeout as it is when THIS request is processed (a later request of the same
+                    # step may remove the element and add it again with another timeout)
+                    elem_at[id(r)] = elem_timeout.get(cget(params, b"path"), None)
         if len(arms) != len(routed) and not any(not ok for d, ok, v in sends):
             fails.append("step %d: %d timers armed for %d routed requests" % (si, len(arms), len(routed)))
         for i, (d, v) in enumerate(routed):
@@ -1172,7 +1176,7 @@ def mon_c14(sc, res):
                     else:
                         want, src = int(t * 1e9), "request"
                 else:
-                    want, src = elem_timeout.get(path, None), "element/default"
+                    want, src = elem_at.get(id(r), elem_timeout.get(path, None)), "element/default"
                 timer_of[arms[i][1]] = (c, cget(r, b"id"))
             if want is not None and abs(arms[i][2] - want) > 1:
                 fails.append("step %d: request on %s armed %d ns, expected %d ns (%s)" % (si, show(path), arms[i][2], want, src))
